@@ -57,8 +57,13 @@ def cases(spec, ctx):
             lo = ctx.rng.randrange(33, 65)
             r["range"] = [0, (1 << lo) - 1, 1 << (lo - 1), (1 << lo) - 1]
             if not r["lossless"]:
+                # byte budget that admits qindex 0: every coefficient of the padded picture (all slices together) at
+                # twice its worst-case bit length, plus per-slice overheads
                 n = r["sx"] * r["sy"]
-                r["pb"] = n * (16 * 3 * (2 * lo + 8) // 8 + 64) * (2 if r["profile"] == 3 else 1)
+                sw, sh = 1 << (r["d"] + r["dh"]), 1 << r["d"]
+                pw, ph = -(-r["w"] // sw) * sw, -(-r["h"] // sh) * sh
+                bits = 2 * (lo + 2 * (r["d"] + r["dh"]) + 4) + 2
+                r["pb"] = (3 * pw * ph * bits) // 8 + 64 * n
             ctx.count("deep_sample_cases")
         # extremes and noise matter most here
         r["pics"]["class"] = ctx.rng.choice(["noise", "noise", "checker", "max", "zero", "mixed", "ramp", "mid"])
@@ -86,6 +91,13 @@ def run_case(case, ctx):
     key = jsonx.key_hash(recipe)
     if o.stage == "encoder-rejected":
         ctx.count("encoder_rejected:" + o.error_class)
+        ctx.seen(key, nontrivial=False)
+        return
+    if (o.stage == "serialise-failed" and not recipe["lossless"] and recipe["range"] and recipe["range"][1].bit_length() > 16
+            and any(q > (127 if recipe["profile"] == 0 else 255) for per_pic in (o.qindices or []) for q in per_pic)):
+        # DESIGN section 7 item 5: beyond 16 bits a byte budget the rate control cannot meet within the qindex field is a
+        # caller error the encoder does not promise to detect (the deep stratum sizes its budgets to avoid this)
+        ctx.count("deep_case_budget_beyond_qindex_field")
         ctx.seen(key, nontrivial=False)
         return
     if o.stage != "done" or o.verdict.kind != "ok":
